@@ -220,19 +220,24 @@ Proof.
   induction h as [|[k c] h IH]; simpl; [reflexivity|]. rewrite rev_length, IH. reflexivity.
 Qed.
 
-Theorem mk_histogram_msq : forall o n eps,
-  mk_histogram o n true eps =
-  match mk_histogram o n false eps with Ok h => Ok (rev_keys h) | Err e => Err e end.
+Theorem mk_histogram_with_msq : forall r o n eps,
+  mk_histogram_with r o n true eps =
+  match mk_histogram_with r o n false eps with Ok h => Ok (rev_keys h) | Err e => Err e end.
 Proof.
-  intros. unfold mk_histogram. destruct (negb (lengths_consistent o)); [reflexivity|].
+  intros. unfold mk_histogram_with. destruct (negb (lengths_consistent o)); [reflexivity|].
   destruct (0 <? n)%Z.
   - destruct (Qc_gtb (Qc_abs (total o - 1)) eps); reflexivity.
   - destruct (n <? 0)%Z; reflexivity.
 Qed.
 
+Theorem mk_histogram_msq : forall o n eps,
+  mk_histogram o n true eps =
+  match mk_histogram o n false eps with Ok h => Ok (rev_keys h) | Err e => Err e end.
+Proof. intros. apply mk_histogram_with_msq. Qed.
+
 Theorem mk_histogram_counts : forall o msq eps, lengths_consistent o = true ->
   mk_histogram o 0 msq eps = Ok (if msq then rev_keys o else o).
-Proof. intros o msq eps H. unfold mk_histogram. rewrite H. simpl. destruct msq; reflexivity. Qed.
+Proof. intros o msq eps H. unfold mk_histogram, mk_histogram_with. rewrite H. simpl. destruct msq; reflexivity. Qed.
 
 (* reading a histogram with msq_first and reading the result again with msq_first gives it back *)
 Theorem reverse_twice : forall o eps, lengths_consistent o = true ->
@@ -342,7 +347,7 @@ Qed.
 
 Lemma mk_histogram_0_ok : forall o eps h, mk_histogram o 0 false eps = Ok h -> h = o.
 Proof.
-  intros o eps h H. unfold mk_histogram in H. destruct (negb (lengths_consistent o)); [discriminate|].
+  intros o eps h H. unfold mk_histogram, mk_histogram_with in H. destruct (negb (lengths_consistent o)); [discriminate|].
   simpl in H. injection H as H. congruence.
 Qed.
 
@@ -616,8 +621,6 @@ Proof.
 Qed.
 
 Fixpoint count (h : hist) : Qc := match h with [] => 0 | _ :: r => 1 + count r end.
-Definition to_counts (n : Z) (o : hist) : hist :=
-  map (fun kc => (fst kc, Z2Qc (round_half_even (snd kc * Z2Qc n)))) o.
 
 Lemma round_total_bound : forall n o,
   total o * Z2Qc n - count o * half <= total (to_counts n o) /\ total (to_counts n o) <= total o * Z2Qc n + count o * half.
@@ -632,10 +635,10 @@ Proof.
     rewrite Qcmult_1_l. split; apply Qcplus_le_compat; assumption.
 Qed.
 
-Lemma mk_histogram_shots : forall o n msq eps h, (0 < n)%Z -> mk_histogram o n msq eps = Ok h ->
-  h = (if msq then rev_keys (to_counts n o) else to_counts n o).
+Lemma mk_histogram_shots : forall r o n msq eps h, (0 < n)%Z -> mk_histogram_with r o n msq eps = Ok h ->
+  h = (if msq then rev_keys (convert r n o) else convert r n o).
 Proof.
-  intros o n msq eps h Hn H. unfold mk_histogram in H. destruct (negb (lengths_consistent o)); [discriminate|].
+  intros r o n msq eps h Hn H. unfold mk_histogram_with in H. destruct (negb (lengths_consistent o)); [discriminate|].
   apply Z.ltb_lt in Hn. rewrite Hn in H. destruct (Qc_gtb (Qc_abs (total o - 1)) eps); [discriminate|].
   simpl in H. injection H as H. subst h. destruct msq; reflexivity.
 Qed.
@@ -643,80 +646,35 @@ Qed.
 Lemma total_msq : forall (msq : bool) h, total (if msq then rev_keys h else h) = total h.
 Proof. intros [|] h; [|reflexivity]. unfold total. apply hsum_rev_keys. Qed.
 
-(* what does hold of Histogram(probabilities, n_shots): the total is within (number of keys)/2 of n_shots * sum(p) *)
-Theorem histogram_total_bound : forall o n msq eps h, (0 < n)%Z -> mk_histogram o n msq eps = Ok h ->
+(* ---- the rule before the repair (per-key rounding): bound, and the refutation of conservation *)
+Theorem asis_total_bound : forall o n msq eps h, (0 < n)%Z -> mk_histogram_asis o n msq eps = Ok h ->
   total o * Z2Qc n - count o * half <= total h /\ total h <= total o * Z2Qc n + count o * half.
 Proof.
-  intros o n msq eps h Hn H. rewrite (mk_histogram_shots o n msq eps h Hn H), total_msq. apply round_total_bound.
+  intros o n msq eps h Hn H. rewrite (mk_histogram_shots RoundPerKey o n msq eps h Hn H), total_msq. apply round_total_bound.
 Qed.
 
-(* and it is exact when every p*n_shots is an integer (e.g. frequencies of a histogram with n_shots shots) *)
 Definition integral_at (n : Z) (o : hist) : Prop := Forall (fun kc => exists z, snd kc * Z2Qc n = Z2Qc z) o.
 
-Lemma to_counts_exact : forall n o, integral_at n o -> to_counts n o = map (fun kc => (fst kc, snd kc * Z2Qc n)) o.
+Lemma to_counts_exact : forall n o, integral_at n o -> to_counts n o = scaled n o.
 Proof.
   induction o as [|[k c] o IH]; intros Hi; simpl; [reflexivity|].
   pose proof (Forall_inv Hi) as [z Hz]. pose proof (Forall_inv_tail Hi) as Ht. simpl in Hz.
   rewrite Hz, round_half_even_Z. rewrite (IH Ht). reflexivity.
 Qed.
 
-Theorem histogram_total_exact : forall o n msq eps h, (0 < n)%Z -> integral_at n o ->
-  mk_histogram o n msq eps = Ok h -> total h = total o * Z2Qc n.
-Proof.
-  intros o n msq eps h Hn Hi H. rewrite (mk_histogram_shots o n msq eps h Hn H), total_msq.
-  rewrite (to_counts_exact n o Hi). unfold total. clear. induction o as [|[k c] o IH]; simpl; [ring|]. rewrite IH. ring.
-Qed.
-
-(* the deterministic part of Histogram.resample / of re-reading one's own frequencies:
-   Histogram(h.frequencies, n_shots = h.n_shots) is h again when the counts are integers *)
-Definition integer_counts (h : hist) : Prop := Forall (fun kc => exists z, snd kc = Z2Qc z) h.
-
-Lemma Z2Qc_nonzero : forall n, (0 < n)%Z -> Z2Qc n <> 0.
-Proof.
-  intros n Hn E. assert (Q : (this (Z2Qc n) == this 0)%Q) by (rewrite E; reflexivity).
-  rewrite this_Z2Qc in Q. change (this 0) with (inject_Z 0) in Q. assert (n = 0%Z) by (apply inject_Z_injective; exact Q). lia.
-Qed.
-
 Lemma Qc_abs_0 : Qc_abs 0 = 0. Proof. reflexivity. Qed.
 
-Theorem frequencies_roundtrip : forall h n eps, (0 < n)%Z -> integer_counts h -> total h = Z2Qc n ->
-  lengths_consistent h = true -> Qc_gtb 0 eps = false ->
-  exists f, frequencies h = Ok f /\ mk_histogram f n false eps = Ok h.
-Proof.
-  intros h n eps Hn Hi Ht Hl He. pose proof (Z2Qc_nonzero n Hn) as Hnz.
-  destruct h as [|kc0 h0] eqn:Eh.
-  - unfold total in Ht. simpl in Ht. symmetry in Ht. contradiction.
-  - rewrite <- Eh in *. assert (Hne : h <> []) by (rewrite Eh; discriminate).
-    assert (Hf : frequencies h = Ok (map (fun kc => (fst kc, snd kc / total h)) h)).
-    { rewrite Eh. unfold frequencies. rewrite <- Eh.
-      destruct (Qc_is0 (total h)) eqn:E0; [|reflexivity].
-      unfold Qc_is0 in E0. apply Qc_eq_bool_correct in E0. rewrite Ht in E0. contradiction. }
-    eexists. split; [exact Hf|]. set (f := map (fun kc => (fst kc, snd kc / total h)) h).
-    assert (Hlf : lengths_consistent f = true).
-    { unfold f. rewrite Eh in *. destruct kc0 as [k0 c0]. simpl in *. rewrite forallb_forall in *. intros x Hx.
-      apply in_map_iff in Hx. destruct Hx as [y [Hy1 Hy2]]. subst x. simpl. apply Hl. exact Hy2. }
-    assert (Htf : total f = 1) by (apply (frequencies_normalised h f Hf Hne)).
-    unfold mk_histogram. rewrite Hlf. simpl negb. cbv iota. apply Z.ltb_lt in Hn. rewrite Hn.
-    rewrite Htf. replace (1 - 1) with 0 by ring. rewrite Qc_abs_0, He. simpl. f_equal.
-    fold (to_counts n f). rewrite to_counts_exact.
-    + unfold f. rewrite map_map. simpl. rewrite Ht. clear -Hnz. induction h as [|[k c] h IH]; simpl; [reflexivity|].
-      rewrite IH. f_equal. f_equal. field. exact Hnz.
-    + unfold integral_at, f. rewrite Forall_map. simpl. unfold integer_counts in Hi. rewrite Forall_forall in *.
-      intros kc Hkc. destruct (Hi kc Hkc) as [z Hz]. exists z. rewrite Ht, Hz. field. exact Hnz.
-Qed.
-
-(* ... but in general the total is NOT n_shots: three equiprobable outcomes, 10 shots -> 3 + 3 + 3 *)
 Definition third : Qc := Q2Qc (1 # 3).
 Definition witness_thirds : hist := [([false; false], third); ([false; true], third); ([true; false], third)].
 
-Theorem histogram_total_refuted_at : forall eps, Qc_gtb 0 eps = false ->
-  exists h, total witness_thirds = 1 /\ mk_histogram witness_thirds 10 false eps = Ok h /\ total h = Z2Qc 9 /\ total h <> Z2Qc 10.
+Theorem asis_total_refuted_at : forall eps, Qc_gtb 0 eps = false ->
+  exists h, total witness_thirds = 1 /\ mk_histogram_asis witness_thirds 10 false eps = Ok h /\ total h = Z2Qc 9 /\ total h <> Z2Qc 10.
 Proof.
   intros eps He. exists (to_counts 10 witness_thirds).
   assert (T1 : total witness_thirds = 1) by (apply Qc_is_canon; vm_compute; reflexivity).
   assert (T9 : total (to_counts 10 witness_thirds) = Z2Qc 9) by (apply Qc_is_canon; vm_compute; reflexivity).
   split; [exact T1|]. split; [|split; [exact T9|]].
-  - unfold mk_histogram. replace (lengths_consistent witness_thirds) with true by reflexivity. simpl negb. cbv iota.
+  - unfold mk_histogram_asis, mk_histogram_with. replace (lengths_consistent witness_thirds) with true by reflexivity. simpl negb. cbv iota.
     replace (0 <? 10)%Z with true by reflexivity. rewrite T1. replace (1 - 1) with 0 by ring. rewrite Qc_abs_0, He. reflexivity.
   - rewrite T9. intro E. assert (Q : (this (Z2Qc 9) == this (Z2Qc 10))%Q) by (rewrite E; reflexivity).
     rewrite !this_Z2Qc in Q. assert (9 = 10)%Z by (apply inject_Z_injective; exact Q). discriminate.
